@@ -22,9 +22,11 @@ DECLINED = ["non-overlap, conservation and bucket hand-over arithmetic of the me
             "'at least that much usable stack'"]
 ASSUMPTIONS = ["malloc/free/mmap/munmap behave as specified"]
 RULES_DOC = dict(common.SHARED_DOC)
+RULES_DOC["X7"] = common.X7_DOC
 RULES_DOC["X4"] = common.X4_DOC
 RULES_DOC["R5"] = "page release: when the pool is destroyed, every undo of the stack guard (protect_memory(.., FALSE)) covers exactly the region that is then released (same address and size as the ABTU_free_largepage that follows); the size recorded with a user-supplied stack is the size the caller passed, unrounded"
 RULES_DOC["R6"] = "every local memory pool is initialised against the global pool of its own kind (descriptor pools feed on the descriptor pool, stack pools on the stack pool); ABT_thread_create_many reaches a creation only with no attribute or with an attribute whose user stack was tested NULL (one user stack is never given to several ULTs)"
+RULES_DOC["R8"] = "ABTI_mem_register_stack / ABTI_mem_unregister_stack agree: the guard page of a stack is made accessible again (ABTU_mprotect(.., FALSE)) for exactly the stack_guard_kind values for which it was protected -- memory handed back to the user or to free() must not keep a read-only page"
 RULES_DOC["R7"] = "when a local memory pool overflows, the buckets it keeps are all moved down: the shift loop runs to the length of the bucket array (a bucket returned to the global pool does not stay referenced locally)"
 RULES_DOC.update({
     "R1": "provenance pairing: flag family = allocator family; free arm = inverse deallocator, exactly once; freed pointer term = allocated pointer term",
@@ -651,6 +653,21 @@ def rule_R2(P, rep):
             rep.ob("R2", "%s links p_elem->p_next before publishing p_elem" % fn, ok, "", loc=F.file, site="%s/link-first" % fn)
 
 
+def rule_R2_unsafe(P, rep):
+    """Who may call the single-threaded LIFO variants: only the lock-based fallback inside abti_sync_lifo.h and the
+    routines that run while no other stream can reach the pool (creation / destruction of a global pool)."""
+    LH = "src/include/abti_sync_lifo.h"
+    n = 0
+    for F in sorted(P.functions.values(), key=lambda f: (f.file, f.line)):
+        for _b, i in F.calls({"ABTI_sync_lifo_push_unsafe", "ABTI_sync_lifo_pop_unsafe"}):
+            n += 1
+            ok = F.file == LH or bool(re.search(r"(init|destroy)_global_pool$", F.name))
+            rep.ob("R2", "%s uses %s only where no other stream can reach the list" % (F.name, F.nodes[i]["fn"]), ok,
+                   "%s can run concurrently with ABTI_sync_lifo_push/pop on another stream: the unsynchronised variant loses or "
+                   "duplicates a bucket" % F.name, loc=F.loc(i), site="%s/%s" % (F.name, F.nodes[i]["fn"]))
+    rep.need(n >= 1, "no use of the unsynchronised LIFO variants found")
+
+
 # ---- R3 ---------------------------------------------------------------------------------------------------------
 
 def rule_R3(P, rep):
@@ -836,13 +853,69 @@ def rule_R7(P, rep):
     rep.need(n >= 1, "ABTI_mem_pool_free: no bucket shift found")
 
 
+def rule_R8(P, rep):
+    """Sibling agreement of ABTI_mem_register_stack / ABTI_mem_unregister_stack: the guard page is made accessible again
+    under exactly the stack_guard_kind values under which it was protected."""
+    H = "src/include/abti_mem.h"
+    kinds = {}
+    for e in P.enums.values():
+        for name, val in e["consts"].items():
+            if name.startswith("ABTI_STACK_GUARD_"):
+                kinds[val] = name
+    rep.need(len(kinds) >= 3, "ABTI_STACK_GUARD_* enumerators: %s" % kinds)
+    byname = dict((n_, v) for v, n_ in kinds.items())
+    reach = {}
+    for fn in ("ABTI_mem_register_stack", "ABTI_mem_unregister_stack"):
+        F = P.fn(fn, H)
+
+        def conds(label, F_, node):
+            if "stack_guard_kind ==" in label and F_.nodes[F_.strip(node)].get("k") != "bin":
+                return label            # an arm of `switch (kind)`: the engine's `kind == ENUMERATOR`
+            lab, flip = canon.cond(F_, node)
+            return (lab, flip) if "stack_guard_kind" in lab else None
+        sel = seq.Sel(calls={"ABTU_mprotect"}, conds=conds, canon=True, locks=False)
+        ok_for = set()
+        ncalls = nt = 0
+        for toks, kind, rv, rtxt in seq.sequences(F, sel, max_len=60):
+            if not idx(toks, is_call("ABTU_mprotect")):
+                continue
+            ncalls += 1
+            cut = idx(toks, is_call("ABTU_mprotect"))[0]
+            tests = []
+            for t in toks[:cut]:
+                if t[0] != "if":
+                    continue
+                m = re.match(r"^ABTI_global::stack_guard_kind (==|!=|<|<=|>|>=) (\w+)$", t[1])
+                if m:
+                    c = m.group(2)
+                    c = int(c) if c.isdigit() else byname.get(c)
+                    if c is not None:
+                        tests.append((m.group(1), c, bool(t[2])))
+                        nt += 1
+            OPS = {"==": lambda x, y: x == y, "!=": lambda x, y: x != y, "<": lambda x, y: x < y, "<=": lambda x, y: x <= y,
+                   ">": lambda x, y: x > y, ">=": lambda x, y: x >= y}
+            for v in kinds:
+                if all(OPS[op](v, c) == truth for op, c, truth in tests):
+                    ok_for.add(v)
+        rep.need(ncalls >= 1, "%s never calls ABTU_mprotect" % fn)
+        rep.need(nt >= 1, "%s: no recognised test of stack_guard_kind governs ABTU_mprotect" % fn)
+        reach[fn] = ok_for
+    a, b = reach["ABTI_mem_register_stack"], reach["ABTI_mem_unregister_stack"]
+    show = lambda s_: sorted(kinds[v] for v in s_)
+    rep.ob("R8", "the stack guard page is unprotected under the same stack_guard_kind values under which it is protected", a == b,
+           "protected for %s, unprotected for %s" % (show(a), show(b)), loc=H, site="stack-guard/kinds")
+
+
 def run(P, rep, tier):
+    common.rule_X7(P, rep, records=('ABTI_thread_attr',))
     common.rule_X4(P, rep)
     common.run_shared(P, rep, which=("X1", "X2"))
     rule_R1(P, rep)
     rule_R2(P, rep)
+    rule_R2_unsafe(P, rep)
     rule_R3(P, rep)
     rule_R4(P, rep)
     rule_R5(P, rep)
     rule_R6(P, rep)
     rule_R7(P, rep)
+    rule_R8(P, rep)
